@@ -1,12 +1,16 @@
 package security
 
 import (
+	"strings"
+	"time"
+
 	"github.com/PelicanPlatform/classad/classad"
 )
 
 func init() {
 	vRegister("VH_C16_Parse", VH_C16_Parse)
 	vRegister("VH_C16_Policy", VH_C16_Policy)
+	vRegister("VH_C16_MintImport", VH_C16_MintImport)
 }
 
 // VH_C16_Parse: for any session id (may itself contain '#', brackets and sinful
@@ -108,4 +112,106 @@ func parseInt64(s string) (int64, bool) {
 		n = n*10 + int64(s[i]-'0')
 	}
 	return n, true
+}
+
+// VH_C16_MintImport: MintClaimSession on one cache and ImportClaimSession of the
+// minted claim id on another, over the option space (tag, commands, extra
+// commands, encryption/integrity flags, cipher list, lifetime): both sides hold
+// an entry with the same session id, the same derived key, the same policy
+// attributes and expiry, filed under the configured tag, and reachable through
+// the command map for every valid command under that tag; the public form ends
+// in "#..." and does not contain the secret.
+//
+//verif:unwind 12
+func VH_C16_MintImport() {
+	vClockWindow(int64(time.Minute))
+	secret := "5ec2e7c0ffee5ec2e7c0ffee5ec2e7c0ffee5ec2e7c0ffee5ec2e7c0ffee5ec2"
+	VerifHook_randomHexKey = func(n int) (string, error) { return secret, nil }
+	keys := map[string][]byte{}
+	knames := [2]string{"derived_key_a", "derived_key_b"}
+	VerifHook_deriveSessionKey = func(sk string, n int) ([]byte, error) {
+		if k, ok := keys[sk]; ok {
+			return k, nil
+		}
+		if len(keys) >= len(knames) {
+			vAssume(false)
+		}
+		k := vBlob(knames[len(keys)], 32)
+		keys[sk] = k
+		return k, nil
+	}
+	defer func() {
+		VerifHook_randomHexKey = nil
+		VerifHook_deriveSessionKey = nil
+	}()
+	tag := []string{"", "ctx1"}[vChoice("tag", 2)]
+	peer := "<192.0.2.9:9618>"
+	var valid []int
+	switch vChoice("valid", 3) {
+	case 1:
+		valid = []int{60007}
+	case 2:
+		valid = []int{60007, 421}
+	}
+	var extra []int
+	if vBool("extra") {
+		extra = []int{7}
+	}
+	tr, fa := true, false
+	flags := []*bool{nil, &tr, &fa}
+	opts := MintClaimOptions{
+		Sinful: "<10.0.0.1:9618>", Birthdate: 1700000000, SequenceNum: 3,
+		PeerAddr: peer, Tag: tag, ValidCommands: valid, ExtraValidCommands: extra,
+		Encryption: flags[vChoice("enc", 3)], Integrity: flags[vChoice("integ", 3)],
+		CryptoMethods: []string{"", "AES", "AES,BLOWFISH"}[vChoice("crypto", 3)],
+	}
+	// a lifetime puts the (symbolic) clock reading, rendered in decimal, into the
+	// claim text; that variant is outside the quick tier
+	mc, ic := NewSessionCache(), NewSessionCache()
+	minted, err := MintClaimSession(mc, opts)
+	vAssert(err == nil, "mint-succeeds")
+	if err != nil {
+		return
+	}
+	sid, ierr := ImportClaimSession(ic, minted.ClaimID(), ClaimSessionOptions{PeerAddr: peer, Tag: tag, ExtraValidCommands: extra, Duration: opts.Lifetime})
+	vAssert(ierr == nil, "import-accepts-minted-claim")
+	if ierr != nil {
+		return
+	}
+	vAssert(sid == minted.SessionID(), "same-session-id")
+	me, mok := mc.Lookup(sid)
+	ie, iok := ic.Lookup(sid)
+	vAssert(mok && iok, "both-sides-hold-the-session")
+	if !mok || !iok {
+		return
+	}
+	vAssert(me.KeyInfo() != nil && ie.KeyInfo() != nil, "both-sides-keyed")
+	if me.KeyInfo() != nil && ie.KeyInfo() != nil {
+		vAssertBytesEqual(me.KeyInfo().Data, ie.KeyInfo().Data, "same-derived-key")
+		vAssert(me.KeyInfo().Protocol == ie.KeyInfo().Protocol, "same-cipher")
+	}
+	vAssert(me.Tag() == tag && ie.Tag() == tag, "filed-under-the-configured-tag")
+	for _, attr := range []string{"Encryption", "Integrity", "CryptoMethods", "ValidCommands", "SessionExpires"} {
+		a, aok := me.Policy().EvaluateAttrString(attr)
+		b, bok := ie.Policy().EvaluateAttrString(attr)
+		vAssert(aok == bok && a == b, "same-policy-attribute")
+	}
+	vAssert(me.Expiration().Equal(ie.Expiration()), "same-expiry")
+	all := append(append([]int{}, valid...), extra...)
+	for _, c := range all {
+		cs := "7"
+		if c == 60007 {
+			cs = "60007"
+		} else if c == 421 {
+			cs = "421"
+		}
+		e1, ok1 := mc.LookupByCommand(tag, peer, cs)
+		e2, ok2 := ic.LookupByCommand(tag, peer, cs)
+		vAssert(ok1 && e1 == me, "minter-reaches-the-session-by-command-under-its-tag")
+		vAssert(ok2 && e2 == ie, "importer-reaches-the-session-by-command-under-its-tag")
+	}
+	pub := minted.PublicClaimID()
+	vAssert(strings.HasSuffix(pub, "#...") && !strings.Contains(pub, secret), "public-form-hides-the-secret")
+	vAssert(strings.HasSuffix(minted.ClaimID(), secret), "claim-id-carries-the-secret-last")
+	vCover("mint-import-agree")
 }
